@@ -131,6 +131,7 @@ structure MType where
   title : List Nat       -- empty = use the key
   tt : TT
   maxSize : Nat
+deriving DecidableEq, Repr
 
 /-- (token name, token value) pairs `index` appends for one field; `value = none` is the nil value of a tag without value -/
 def indexField (c : TokCfg) (all : List MType) (key : List Nat) (value : Option (List TRn)) : List (List Nat × List Nat) :=
@@ -146,5 +147,30 @@ def indexField (c : TokCfg) (all : List MType) (key : List Nat) (value : Option 
           | .path => pathTokens c t.maxSize v
           | _ => []
       toks.map (fun x => (title, x)) ++ [(tokenExists, title)]
+
+/-! ## `convertMappingWithMultipleTypes` (seq/mapping.go): a `types:` list of a field -/
+
+/-- one entry of the YAML list: title (empty = the main type), tokenizer type, size -/
+structure TypeIn where
+  title : List Nat
+  tt : TT
+  size : Nat
+deriving DecidableEq, Repr
+
+/-- the loop: `seen` titles, the main type found so far, the `All` list in list order (titles `fn` / `fn.title`) -/
+def convertLoop (fn : List Nat) : List TypeIn → List (List Nat) → Option MType → List MType → Option (Option MType × List MType)
+  | [], _, main, all => some (main, all)
+  | t :: rest, seen, main, all =>
+    if seen.contains t.title then none                                   -- "duplicate field title in mapping"
+    else
+      let title := if t.title.isEmpty then fn else fn ++ [46] ++ t.title  -- PathDelim "."
+      let main' := if t.title.isEmpty then some ⟨fn, t.tt, t.size⟩ else main
+      convertLoop fn rest (t.title :: seen) main' (all ++ [⟨title, t.tt, t.size⟩])
+
+/-- `MappingTypes{Main, All}` of a multi-type field, `none` = error (duplicate title, or no untitled entry) -/
+def convertTypes (fn : List Nat) (types : List TypeIn) : Option (MType × List MType) :=
+  match convertLoop fn types [] none [] with
+  | some (some main, all) => some (main, all)
+  | _ => none
 
 end SV.Tok
